@@ -11,6 +11,10 @@ def call(mod, pb):
     return mod.solve_putteria(pb["h"], pb["w"], [[tuple(c) for c in b] for b in pb["blocks"]])
 
 
+def ncand(pb):
+    return 2 ** (pb['h'] * pb['w'])
+
+
 encode = _nn.encode
 
 
